@@ -3,13 +3,13 @@ CONSTANTS
   Cfg <- CfgAasfound
   Kinds = {"epic"}
   Shapes <- ShapesXo
-  Vias = {0, 1, 3}
-  SrcDom = {"L", "F"}
-  DstDom = {"L", "F"}
+  Vias = {1}
+  SrcDom = {"F"}
+  DstDom = {"F"}
   Faults = {"none"}
   L4Dom = {"udp"}
-  InSideDom = {0, 1, 2, 3, 999}
-  EgSideDom = {0, 1, 2, 3, 999}
+  InSideDom = {1, 999}
+  EgSideDom = {2, 3}
   PeerDom = {FALSE}
   ExpDom = {FALSE}
   AuthDom <- Auth3
